@@ -308,6 +308,7 @@ func c10SelectOpts(i int, raw []byte) Result {
 	var c struct {
 		selCase
 		Opts []string `json:"opts"`
+		Via  string   `json:"via"`
 	}
 	if err := json.Unmarshal(raw, &c); err != nil {
 		return fail("decode", "decode", err.Error(), nil)
@@ -317,6 +318,13 @@ func c10SelectOpts(i int, raw []byte) Result {
 		return Result{OK: false, Sig: "MACHINERY:pdfw", What: err.Error()}
 	}
 	okey := strings.Join(c.Opts, "+")
+	if c.Via != "" && c.Via != "text" {
+		okey += ":" + c.Via
+	}
+	textOf := func(e *tabula.Extractor) (string, error) {
+		o, err := runTerminal(e, c.Via)
+		return o.Text, err
+	}
 	r := Result{OK: true, Nontrivial: len(c.Calls) > 0 && len(c.Opts) > 0, Key: string(raw), Evals: 2}
 	mk := func(cl, what string, obs interface{}) Result {
 		x := fail(cl, "C10:"+cl+":"+okey, what+fmt.Sprintf(" (calls %s, options %v, 5-page document)", mustJSON(c.Calls), c.Opts), map[string]interface{}{"case": json.RawMessage(raw), "observed": obs})
@@ -327,7 +335,7 @@ func c10SelectOpts(i int, raw []byte) Result {
 	wholeMu.Lock()
 	whole, ok := wholeByOpts[okey]
 	if !ok {
-		w, _, werr := applyOpts(tabula.Open(path), c.Opts).Text()
+		w, werr := textOf(applyOpts(tabula.Open(path), c.Opts))
 		if werr != nil {
 			wholeMu.Unlock()
 			return Result{OK: false, Sig: "MACHINERY:c10opt", What: "whole-document extraction failed: " + werr.Error()}
@@ -336,8 +344,8 @@ func c10SelectOpts(i int, raw []byte) Result {
 	}
 	wholeMu.Unlock()
 	// options before and after the selection calls: both spellings must agree
-	t1, _, e1 := apply(applyOpts(tabula.Open(path), c.Opts), c.Calls).Text()
-	t2, _, e2 := applyOpts(apply(tabula.Open(path), c.Calls), c.Opts).Text()
+	t1, e1 := textOf(apply(applyOpts(tabula.Open(path), c.Opts), c.Calls))
+	t2, e2 := textOf(applyOpts(apply(tabula.Open(path), c.Calls), c.Opts))
 	switch c.Expected.Outcome {
 	case "error":
 		if e1 == nil || e2 == nil {
